@@ -94,7 +94,7 @@ def _validate_one(args):
     fn, first, idx, wdname = args
     wd = workdir(f'{wdname}_{idx}')
     cfg = os.path.join(wd, 'trace.cfg')
-    write_cfg(cfg, spec='TraceSpec', postcondition='TraceAccepted')
+    write_cfg(cfg, spec='TraceSpec', postcondition='TraceAccepted', constants=dict(SharedMode=True))
     r = run_tlc('Trace.tla', cfg, wd, workers=1, env={'TRACE': fn},
                 java_opts='-Xss1g -Xmx3g -Dtlc2.tool.queue.IStateQueue=StateDeque', timeout=3000)
     return fn, first, r
@@ -179,6 +179,16 @@ def mismatch_diffs(m):
                     d.append((f'row[{o["op"]}{",all" if o["all"] else ""}{",neg" if o["negate"] else ""}{",ws" if o["ws"] else ""}{",limit" if o["limit"] else ""}]{kind}',
                               dict(o=o, ranges=e['rows'][i]), g['rows'][i]))
             return d
+        if rec['ev'] == 'ConcRun':
+            d = []
+            if not e.get('conforms'):
+                d.append(('conc.conformance', e.get('threads'), (g or {}).get('threads')))
+            if not e.get('sequential'):
+                got = [t['forms'] for t in e.get('threads', [])]
+                for i, (al, gt) in enumerate(zip(e.get('alone', []), got)):
+                    if al != gt:
+                        d.append((f'conc.sequential[{rec["a"]["ops"][i]["op"]}]', al, gt))
+            return d or [('conc', 'ok', 'rejected')]
         if rec['ev'] == 'Query':
             if not e.get('ok'):
                 return [('query.outcome', 'err', rec['outcome'])]
@@ -322,7 +332,7 @@ def attribute(m, diffs):
 
 READONLY_OWNER = {'Lookup': 'C03', 'TextSel': 'C04', 'AnnTextOf': 'C04', 'OffsetReport': 'C04', 'Utf8Byte': 'C12',
                   'ByteToChar': 'C12', 'TextOp': 'C07', 'TestRelation': 'C13', 'RelatedText': 'C06',
-                  'TestRelationRow': 'C13', 'RelatedRow': 'C06', 'Validate': 'C18', 'WebAnno': 'C17', 'Parse': 'C09', 'Query': 'C08'}
+                  'TestRelationRow': 'C13', 'RelatedRow': 'C06', 'Validate': 'C18', 'WebAnno': 'C17', 'Parse': 'C09', 'Query': 'C08', 'ConcRun': 'C20'}
 
 
 def _has_offset(t):
@@ -355,6 +365,9 @@ def arg_features(rec):
             f.append('off=' + a['off']['bk'] + a['off']['ek'])
     elif ev == 'OffsetReport':
         f.append('m=%d' % a['m'])
+    elif ev == 'ConcRun':
+        f.append('ops=' + '+'.join(o['op'] for o in a['ops']))
+        f.append('members=' + '+'.join(m['kind'] + ('S' if m['standoff'] else '') + ('C' if m['changed'] else '') for m in a['shape']['members']))
     elif ev == 'Query':
         def kinds(q):
             return '+'.join((c['k'] + ('@m' if c['q'] else '') + ('@rec' if c['rec'] else '') + (':' + c['b'] if c['k'] in ('Relation', 'Text') else '')
@@ -403,6 +416,8 @@ def arg_features(rec):
 def fingerprint(m, diffs):
     rec, exp = m['rec'], m['exp']
     paths = sorted(set(norm_path(p) for p, _, _ in diffs))
+    if exp.get('readonly') and rec['ev'] == 'ConcRun':
+        return '|'.join(['ConcRun', 'got=' + rec['outcome'], ','.join(paths), ','.join(arg_features(rec))])
     if exp.get('readonly') and rec['ev'] == 'Query':
         return '|'.join(['Query', 'got=' + rec['outcome'], ','.join(paths), ','.join(arg_features(rec))])
     if exp.get('readonly') and rec['ev'] == 'Parse':
